@@ -105,8 +105,9 @@ func (c IndexCfg) Config() vecfc.IndexConfig {
 }
 
 type InstCfg struct {
-	Index    IndexCfg
-	StoreCfg *abft.StoreConfig
+	Index     IndexCfg
+	StoreCfg  *abft.StoreConfig
+	ReuseVals bool // when the sealing set equals the current one, return the current *pos.Validators object itself
 }
 
 // Inst wraps a real abft.IndexedLachesis whose main and epoch databases are owned by the harness.
@@ -135,8 +136,8 @@ func BuildValidators(ids []idx.ValidatorID, weights []uint64) *pos.Validators {
 	return b.Build()
 }
 
-func copyDB(src kvdb.Store) kvdb.Store {
-	dst := memorydb.New()
+func copyDB(src kvdb.Store, onDrop func()) kvdb.Store {
+	dst := memorydb.NewWithDrop(onDrop)
 	it := src.NewIterator(nil, nil)
 	defer it.Release()
 	for it.Next() {
@@ -169,7 +170,7 @@ func (in *Inst) open() {
 	in.Store = abft.NewStore(in.MainDB, func(e idx.Epoch) kvdb.Store {
 		db, ok := in.EpDBs[e]
 		if !ok {
-			db = memorydb.New()
+			db = memorydb.NewWithDrop(func() { delete(in.EpDBs, e) })
 			in.EpDBs[e] = db
 		}
 		return db
@@ -198,6 +199,9 @@ func (in *Inst) boot() {
 				if in.Seal != nil {
 					nv = in.Seal(rec.Epoch, rec.Frame)
 				}
+				if nv != nil && in.Cfg.ReuseVals && nv.String() == in.Store.GetValidators().String() {
+					nv = in.Store.GetValidators() // an application handing back the very same object for an unchanged set
+				}
 				rec.Sealed = nv != nil
 				in.Blocks = append(in.Blocks, rec)
 				if in.OnBlock != nil {
@@ -217,10 +221,10 @@ func (in *Inst) boot() {
 // databases, and a new store / vector index / consensus object is bootstrapped over them. The event
 // source (the application's event storage) and the block log are carried over.
 func (in *Inst) Restart() *Inst {
-	n := &Inst{In: in.In, Cfg: in.Cfg, Seal: in.Seal, MainDB: copyDB(in.MainDB), EpDBs: map[idx.Epoch]kvdb.Store{}}
+	n := &Inst{In: in.In, Cfg: in.Cfg, Seal: in.Seal, MainDB: copyDB(in.MainDB, func() {}), EpDBs: map[idx.Epoch]kvdb.Store{}}
 	ep := in.Store.GetEpoch()
 	if db, ok := in.EpDBs[ep]; ok {
-		n.EpDBs[ep] = copyDB(db)
+		n.EpDBs[ep] = copyDB(db, func() { delete(n.EpDBs, ep) })
 	}
 	n.Blocks = append(n.Blocks, in.Blocks...)
 	n.OnBlock = in.OnBlock
